@@ -42,14 +42,35 @@ def strategy(draw):
         for row in table["rows"]:
             row[0] = row[0] or "n/a"
     edit = (draw(st.integers(0, 50)), draw(st.integers(0, 5)), draw(st.integers(0, 5))) if draw(st.booleans()) else None
-    return {"spec": spec, "table": table, "mode": mode, "edit": edit}
+    return {"spec": spec, "table": table, "mode": mode, "edit": edit, "spacing": draw(st.sampled_from([0, 0, 1, 2]))}
+
+
+def respace(doc, mode):
+    """The same sidecar with blanks inside parentheses (mode 1) and also before commas (mode 2): spacing around
+    delimiters and references is free in HED strings."""
+    if not mode:
+        return doc
+
+    def sp(text):
+        text = text.replace("(", "( ").replace(")", " )")
+        return text.replace(",", " ,") if mode == 2 else text
+
+    out = {}
+    for col, body in doc.items():
+        body = dict(body)
+        if isinstance(body.get("HED"), str):
+            body["HED"] = sp(body["HED"])
+        elif isinstance(body.get("HED"), dict):
+            body["HED"] = {k: sp(v) for k, v in body["HED"].items()}
+        out[col] = body
+    return out
 
 
 def build(case):
     import pandas as pd
     from hed.models.sidecar import Sidecar
     from hed.models.tabular_input import TabularInput
-    doc = gen_tab.sidecar_json(case["spec"])
+    doc = respace(gen_tab.sidecar_json(case["spec"]), case.get("spacing", 0))
     sidecar = Sidecar(io.StringIO(json.dumps(doc)), name="sc")
     t = case["table"]
     if case["mode"] == "tsv":
@@ -161,13 +182,14 @@ def oracle(case):
     if why:
         out.bad(f"table-changed-by-assembly:{why}", f"dtypes before {snap[1]} after "
                                                     f"{[str(x) for x in tab.dataframe.dtypes]}")
-    if sidecar.loaded_dict != doc_before or sidecar.loaded_dict != doc:
+    if sidecar.loaded_dict != doc_before or sidecar.loaded_dict != doc:   # doc: as given (spacing included)
         out.bad("sidecar-changed-by-assembly", json.dumps(sidecar.loaded_dict)[:300])
     return out
 
 
 def describe(case):
-    return {"sidecar": gen_tab.sidecar_json(case["spec"]), "table": case["table"], "mode": case["mode"]}
+    return {"sidecar": respace(gen_tab.sidecar_json(case["spec"]), case.get("spacing", 0)), "table": case["table"],
+            "mode": case["mode"]}
 
 
 def warmup(tier):
